@@ -63,6 +63,7 @@ Inductive leaf :=
 | LUndef (v : nat) (a b : K)
 | LDeriv (v k : nat)
 | LInteg (v : nat)
+| LIntegA (v : nat)     (* Integral(v(t - tau), (tau, 0, oo)): the first branch of LaplaceTransformer.integral *)
 | LConv (v h : nat)
 | LPoly (p : list K).        (* a polynomial factor  p0 + p1 t + p2 t^2 + ...  (an Add inside a Mul) *)
 Definition mono := (K * list leaf)%type.
@@ -100,7 +101,7 @@ Definition leaf_nf (l : leaf) : option nf :=
   | LRamp a b => ramp_nf a b
   | LRstep a b => oapp (ramp_nf a b) (oscale (- (1)) (ramp_nf a (b - 1)))
   | LPoly p => Some [NReg None (poly_r O p)]
-  | LUndef _ _ _ | LDeriv _ _ | LInteg _ | LConv _ _ => None
+  | LUndef _ _ _ | LDeriv _ _ | LInteg _ | LIntegA _ | LConv _ _ => None
   end.
 Fixpoint prod_nf (fs : list leaf) : option nf :=
   match fs with
@@ -113,7 +114,7 @@ Definition mono_nf (m : mono) : option nf := oscale (fst m) (prod_nf (snd m)).
 (* ------------------------------------------------------------------ denotation *)
 Definition is_ut (l : leaf) : bool := match l with LU a b => feqb a 1 && feqb b 0 | _ => false end.
 Definition is_named (l : leaf) : bool :=
-  match l with LUndef _ _ _ | LDeriv _ _ | LInteg _ | LConv _ _ => true | _ => false end.
+  match l with LUndef _ _ _ | LDeriv _ _ | LInteg _ | LIntegA _ | LConv _ _ => true | _ => false end.
 Definition remove_heaviside (fs : list leaf) : list leaf := filter (fun l => negb (is_ut l)) fs.
 Definition undef_sig (v : nat) (a b : K) : option signal :=
   if isr a && isr b && pos a && (neg b || feqb b 0) then Some (SDelay (- b / a) (STScale a (SFn v))) else None.
@@ -130,6 +131,7 @@ Definition den_named (fs : list leaf) : option signal :=
       if feqb be 0 then match undef_sig v a b with Some x => Some (SExpW al x) | None => None end else None
   | [LDeriv v k] => Some (SDerivN k (SFn v))
   | [LInteg v] => Some (SInteg (SFn v))
+  | [LIntegA v] => Some (SInteg (SFn v))     (* int_0^oo v(t - tau) dtau = int_{-oo}^t v = int_0^t v for the causal named functions *)
   | [LConv v h] => Some (SConv (SFn v) (SFn h))
   | [LUndef v a' b'; LDelta O a b] => sift_sig v a' b' a b
   | [LDelta O a b; LUndef v a' b'] => sift_sig v a' b' a b
@@ -187,7 +189,7 @@ Definition function_model (l : leaf) : option (K -> K) :=
   | LRstep a b => if feqb b 0 then Some (f_rstep F a) else None
   | _ => None
   end.
-Definition is_function (l : leaf) : bool := match l with LPowT _ | LDeriv _ _ | LInteg _ | LConv _ _ | LPoly _ => false | _ => true end.
+Definition is_function (l : leaf) : bool := match l with LPowT _ | LDeriv _ _ | LInteg _ | LIntegA _ | LConv _ _ | LPoly _ => false | _ => true end.
 
 (* ---- AppliedUndef branch ------------------------------------------------------------------- *)
 Definition sift_shape (fs : list leaf) : option (nat * K * K * K * K) :=
@@ -298,10 +300,11 @@ Definition early (c : K) (fs : list leaf) : option (K -> K) :=
   | [LExp a b] => if feqb b 0 then Some (f_exp F c a) else None
   | _ => None
   end.
-Definition is_integral (l : leaf) : bool := match l with LInteg _ | LConv _ _ => true | _ => false end.
+Definition is_integral (l : leaf) : bool := match l with LInteg _ | LIntegA _ | LConv _ _ => true | _ => false end.
 Definition integral_model (c : K) (fs : list leaf) : option (K -> K) * list ev :=
   match fs with
   | [LInteg v] => (Some (fun s => c * f_integ F 1 (f_func F v 1 0 s) s), [EvIntegral; EvFunc])
+  | [LIntegA v] => (Some (fun s => c * f_integ F 1 (f_func F v 1 0 s) s), [EvIntegral; EvTerm; EvFunc])   (* goes through self.term(v(t)) *)
   | [LConv v h] => (Some (fun s => c * f_conv F 1 (f_func F v 1 0 s) (f_func F h 1 0 s)),
                     [EvIntegral; EvTerm; EvFunc; EvTerm; EvFunc])
   | _ => (None, [EvIntegral; EvError])
@@ -978,6 +981,12 @@ Proof. destruct HF. unfold integral_model. destruct fs as [|l0 fs]; [discriminat
       rewrite (ex_eq (s * 0 / 1) 0) by (field; apply one_nz). rewrite ex_0.
       replace (s / 1) with s by (field; apply one_nz). field; nzc.
     + apply LP_scale. apply (LP_integ K ex isr neg Fn (Icz zic) (SFn v) (fun _ => True) (Fn v)). apply LP_fn.
+  - apply (LP_weaken K ex isr neg Fn (Icz zic) _ (fun s => True /\ s <> 0) _ (fun s => c * (Fn v s / s))).
+    + intros s [Hs _]. split; [split; [exact I | exact Hs]|].
+      rewrite integ_ok0 by exact Hs. rewrite func_ok0 by exact pos_1. unfold spec_func.
+      rewrite (ex_eq (s * 0 / 1) 0) by (field; apply one_nz). rewrite ex_0.
+      replace (s / 1) with s by (field; apply one_nz). field; nzc.
+    + apply LP_scale. apply (LP_integ K ex isr neg Fn (Icz zic) (SFn v) (fun _ => True) (Fn v)). apply LP_fn.
   - apply (LP_weaken K ex isr neg Fn (Icz zic) _ (fun s => True /\ True) _ (fun s => c * (Fn v s * Fn h s))).
     + intros s _. split; [tauto|]. rewrite conv_ok0. rewrite !func_ok0 by exact pos_1. unfold spec_func.
       rewrite (ex_eq (s * 0 / 1) 0) by (field; apply one_nz). rewrite ex_0.
@@ -1209,4 +1218,4 @@ End LModel.
 
 Arguments LPowT {K}. Arguments LExp {K}. Arguments LSin {K}. Arguments LCos {K}. Arguments LSinh {K}. Arguments LCosh {K}.
 Arguments LU {K}. Arguments LDelta {K}. Arguments LRect {K}. Arguments LTri {K}. Arguments LRamp {K}. Arguments LRstep {K}.
-Arguments LUndef {K}. Arguments LDeriv {K}. Arguments LInteg {K}. Arguments LConv {K}. Arguments LPoly {K}.
+Arguments LUndef {K}. Arguments LDeriv {K}. Arguments LInteg {K}. Arguments LIntegA {K}. Arguments LConv {K}. Arguments LPoly {K}.
